@@ -47,7 +47,7 @@ UNPROVED = [
     "run-time theorems are about the STORED value of an operator result; that a result consumed directly by another operator has the same value is C02_rt_context_independent (model, run-time and compile-time shift counts, its cast conditions scraped from the emitter) + the fixed list NESTED_PROBES (implementation); deeper nesting, right-nested and half-constant nested forms other than a literal shift count: not modelled",
     "`///` `%%%` and unsigned `//` `%` at run time, unary `~` on both sides, fold_un: correspondence only",
     "half-constant forms (one operand a baked literal), the C type of the emitted literal (Model.lit_ctype), untyped literals at run time: correspondence/probes only",
-    "floats (float32/float64 operands, `/`, `^`): no theorem; fold vs run time compared bit for bit on generated probes; float32 folding is an open finding",
+    "floats (float32/float64 operands, `/`, `^`): no theorem and no model clause (in particular none for pow/fmod: no C99 Annex F case is vouched for by Coq); fold (the compiler's own Lua VM, rebuilt from the repository under test) vs run time (libm) compared as printed by %a - bit for bit up to the NaN payload, sign of zero and of infinity included - on generated probes plus the fixed grid FLOAT_SPECIAL_GRID (`^` `%` `%%%` `//` `///` `/` unary - on +-inf, +-0, nan, negative and subnormal bases x exponents/divisors 0.5 -0.5 2 -2 -1 +-0 +-inf nan 1/3 3 1 1.5; 793 probes, every run); float32 folding is an open finding",
     "explicit casts of constants, float -> integer constant conversion (demotefloat, fractional rejection), conversions from a source type other than int64: not modelled, not tested here",
     "analyzer.lua propagation of attr.value / <comptime> variables: exercised only through the end-to-end probe programs",
     "C02_conv_rejected_iff is definitional (conv_accepts := in_rangeb); its link to C04's nelua_assert_narrow_ predicate is C04_narrow_fires_iff, in another sub-project",
